@@ -18,6 +18,7 @@ from ..alg import AlgError, Context, Rat, _pdiv_exact
 from ..extract import Extractor, Closure, Opaque, PathRaises, ReturnValue, _dotted
 from ..model import Program, walk_own
 from ..report import AnalysisError
+from ..model import key_in
 
 EQ = "hypnotoad/core/equilibrium.py"
 POLY = "hypnotoad/utils/polygons.py"
@@ -41,7 +42,7 @@ class FIEx(Extractor):
 
     def choose(self, test, env):
         t = self.text(test)
-        if "numpy.abs(l2end.R - l2start.R) > numpy.abs(l2end.Z - l2start.Z)" in t.replace("\n", " "):
+        if key_in("numpy.abs(l2end.R - l2start.R) > numpy.abs(l2end.Z - l2start.Z)", t):
             return self.seed
         return None
 
@@ -362,7 +363,7 @@ class CAEx(Extractor):
     def choose(self, test, env):
         t = self.text(test)
         for k, v in self.seeds.items():
-            if k in t:
+            if key_in(k, t):
                 return v
         return None
 
